@@ -1356,6 +1356,11 @@ impl ContextualHuffmanEncoder {
             context_map.insert(context, tree_idx);
         }
 
+        // Every serialized tree needs at least a 4-byte size field
+        if tree_count > (data.len() - offset) / 4 {
+            return Err(ZiporaError::invalid_data("Tree count exceeds available data"));
+        }
+
         // Read trees
         let mut trees = Vec::with_capacity(tree_count);
         for _ in 0..tree_count {
